@@ -46,7 +46,7 @@ def secret_nodes(S):
         if e.kind == "call":
             names = (e.info or {}).get("names") or []
             tail = names[-1].rsplit("::", 1)[-1] if names else ""
-            if tail in ("len", "is_empty", "capacity", "next", "size_hint", "count", "is_some", "is_none"):
+            if tail in ("len", "is_empty", "capacity", "size_hint", "count", "is_some", "is_none"):
                 return False
         if e.kind == "index":
             return False
